@@ -132,3 +132,127 @@ Inductive clean_from : list Z -> list Z -> list Z -> Prop :=
     clean_from (hex_num hs :: acc) l o ->
     clean_from acc (38 :: 35 :: 120 :: hs ++ 59 :: l) (hex_num hs :: o).
 Definition clean (b o : list Z) : Prop := clean_from [] b o.
+
+(* ---- entity maps whose replacements ReplaceEntities itself leaves alone ----------------------------------
+   a replacement is the single byte '&', or a non-empty string of bytes other than '&' and decimal references
+   whose value reaches 128 (such as `&#198;`, `&#8770;&#824;`); these are the shapes HTML entity tables use *)
+Inductive inert_str : list Z -> Prop :=
+| IS_nil : inert_str []
+| IS_byte : forall c r, c <> 38 -> inert_str r -> inert_str (c :: r)
+| IS_ref : forall ds r, ds <> [] -> forallb is_digit ds = true -> 128 <= snd (scan_dec ds 0) ->
+    inert_str r -> inert_str (38 :: 35 :: ds ++ 59 :: r).
+Definition em_stable (em : list (list Z * list Z)) : Prop :=
+  forall name r, In (name, r) em -> r = [38] \/ (r <> [] /\ inert_str r).
+
+(* ---- the decision replaceEntities takes at an '&', as a function of the window u = the bytes from the '&' up to
+   (not including) the first byte that stops every scan, and of the look-behind lb.  EntShift.replace_at_dec proves
+   that the model of replaceEntities does exactly this. *)
+Inductive decision := Keep (d : Z) | Repl (off : Z) (r : list Z).
+
+Definition dguard (lb : bool) (off : Z) (r : list Z) : decision :=
+  match r with
+  | c :: _ => if cont_start c && lb then Keep off else Repl off r
+  | [] => Repl off r
+  end.
+
+Definition dfinish (rm : list (Z * list Z)) (lb : bool) (u : list Z) (off : Z) (r : list Z) : decision :=
+  if (off <? len u) && (getz u off =? 59) && (2 <? off + 1) then
+    match r with
+    | [c] =>
+        match lookup_byte rm c with
+        | Some q => if list_eqb q (slice u 0 (off + 1)) then Keep off else dguard lb off q
+        | None =>
+            if c =? 38 then
+              let k := off + 1 in
+              if (k <? len u) && (is_alnum (getz u k) || (getz u k =? 35)) then Keep k else dguard lb off r
+            else dguard lb off r
+        end
+    | _ => dguard lb off r
+    end
+  else Keep 0.
+
+Definition decide (em : list (list Z * list Z)) (rm : list (Z * list Z)) (lb : bool) (u : list Z) : decision :=
+  if getz u 1 =? 35 then
+    if getz u 2 =? 120 then
+      let '(nd, c) := scan_hex (skipz 3 u) 0 in
+      let off := 3 + nd in
+      if (off <=? 3) || (10000 <=? c) then Keep (off - 1)
+      else dfinish rm lb u off (if c <? 128 then [byte_of c] else 38 :: 35 :: dec_digits c ++ [59])
+    else
+      let '(nd, c) := scan_dec (skipz 2 u) 0 in
+      let off := 2 + nd in
+      if (off <=? 2) || (128 <=? c) then Keep (off - 1) else dfinish rm lb u off [byte_of c]
+  else
+    let off := 1 + scan_name (skipz 1 u) 0 in
+    if (off =? 1) || negb (getz u off =? 59) then Keep 0
+    else match lookup_name em (slice u 1 off) with
+         | None => Keep off
+         | Some r => dfinish rm lb u off r
+         end.
+
+(* a reverse map entry c -> q is stable when q is one terminated reference `&`...`;` without a second '&' that the
+   decision keeps, with and without an ampersand sequence in front (typically: it reads q as c and finds q again) *)
+Definition is_keep (d : decision) : bool := match d with Keep _ => true | Repl _ _ => false end.
+Definition rm_entry_stable (em : list (list Z * list Z)) (rm : list (Z * list Z)) (e : Z * list Z) : bool :=
+  let q := snd e in
+  match q with
+  | a :: t => (a =? 38) && (3 <=? len q) && (getz q (len q - 1) =? 59) && forallb cont_start t &&
+              is_keep (decide em rm false q) && is_keep (decide em rm true q)
+  | [] => false
+  end.
+Definition rm_stable (em : list (list Z * list Z)) (rm : list (Z * list Z)) : bool := forallb (rm_entry_stable em rm) rm.
+
+(* ---- a decoder for terminated character references, parametrised by the name map ---------------------------
+   `&#D+;` and `&#xH+;` decode to their (unbounded) value as one code point, `&name;` (name a non-empty run of
+   [0-9a-zA-Z]) to what the map's replacement for that name decodes to (numeric references only inside a
+   replacement); everything else is literal text.  References to NUL decode to 0, as ReplaceEntities writes them. *)
+Definition null {A} (l : list A) : bool := match l with [] => true | _ => false end.
+Definition num_ref (l : list Z) : option (list Z * nat) :=        (* l: the text after "&#" *)
+  if hd_is 120 l then
+    let '(hs, rest) := span is_hex (tl l) in
+    if negb (null hs) && hd_is 59 rest then Some ([hex_num hs], (4 + length hs)%nat) else None
+  else
+    let '(ds, rest) := span is_digit l in
+    if negb (null ds) && hd_is 59 rest then Some ([dec_val ds], (3 + length ds)%nat) else None.
+Fixpoint dec_from (rf : list Z -> option (list Z * nat)) (l : list Z) (skip : nat) : list Z :=
+  match l with
+  | [] => []
+  | c :: t =>
+      match skip with
+      | S k => dec_from rf t k
+      | O => match rf l with
+             | Some (v, n) => v ++ dec_from rf t (Nat.pred n)
+             | None => c :: dec_from rf t 0
+             end
+      end
+  end.
+Definition ref_num (l : list Z) : option (list Z * nat) :=        (* l: the text from the '&' on *)
+  match l with
+  | a :: t => if (a =? 38) && hd_is 35 t then num_ref (tl t) else None
+  | [] => None
+  end.
+Definition ndec (l : list Z) : list Z := dec_from ref_num l 0.
+Definition ref_named (em : list (list Z * list Z)) (l : list Z) : option (list Z * nat) :=
+  match l with
+  | a :: t =>
+      if a =? 38 then
+        if hd_is 35 t then num_ref (tl t)
+        else
+          let '(name, rest) := span is_alnum t in
+          if negb (null name) && hd_is 59 rest then
+            match lookup_name em name with
+            | Some r => Some (ndec r, (2 + length name)%nat)
+            | None => None
+            end
+          else None
+      else None
+  | [] => None
+  end.
+Definition hdec (em : list (list Z * list Z)) (l : list Z) : list Z := dec_from (ref_named em) l 0.
+
+(* the reverse map writes references that decode back to the byte they stand for *)
+Definition rm_dec_ok (em : list (list Z * list Z)) (rm : list (Z * list Z)) : bool :=
+  forallb (fun e => match ref_named em (snd e) with
+                    | Some (v, n) => list_eqb v [fst e] && Nat.eqb n (length (snd e))
+                    | None => false
+                    end) rm.
